@@ -49,7 +49,21 @@ structure Ws where
   atoms : List A          -- closed_by_client, close_code, close_reason, timestamp_end
   deriving DecidableEq
 
-/-- the state of one component of HTTPFlow.get_state() -/
+/-- a TCPMessage / UDPMessage state: (from_client, content, timestamp) -/
+structure TMsg where
+  fromClient : Bool
+  content : Bytes
+  ts : A
+  deriving DecidableEq
+
+/-- a DNSMessage state: scalar fields (id, query, op_code, …, answers/authorities/additionals as interned wholes,
+    timestamp) in get_state() order, and the question list, each question = [name, type, class] -/
+structure DnsMsg where
+  atoms : List A
+  questions : List (List A)
+  deriving DecidableEq
+
+/-- the state of one component of get_state() of an HTTPFlow / TCPFlow / UDPFlow / DNSFlow -/
 inductive Comp where
   | conn (fields : List A)             -- client_conn / server_conn: field values in get_state() order
   | err (e : Option Err)
@@ -59,6 +73,8 @@ inductive Comp where
   | req (r : Msg)
   | resp (r : Option Msg)
   | ws (w : Option Ws)
+  | tmsgs (l : List TMsg)              -- TCPFlow / UDPFlow messages
+  | dns (m : Option DnsMsg)            -- DNSFlow request / response
   deriving DecidableEq
 
 -- ------------------------------------------------------------------------------------------ Headers (MultiDict)
@@ -125,6 +141,22 @@ def WsEdit.apply : WsEdit → Ws → Ws
   | .drop i b, w => { w with messages := w.messages.modify i fun m => { m with dropped := b } }
   | .atom k a, w => { w with atoms := w.atoms.set k a }
 
+inductive TMsgEdit where
+  | append (m : TMsg) | pop | setContent (i : Nat) (c : Bytes)
+
+def TMsgEdit.apply : TMsgEdit → List TMsg → List TMsg
+  | .append m, l => l ++ [m]
+  | .pop, l => l.dropLast
+  | .setContent i c, l => l.modify i fun m => { m with content := c }
+
+inductive DnsEdit where
+  | atom (k : Nat) (a : A)             -- f.request.id = …, f.response.response_code = …
+  | qname (i : Nat) (a : A)            -- f.request.questions[i].name = …
+
+def DnsEdit.apply : DnsEdit → DnsMsg → DnsMsg
+  | .atom k a, m => { m with atoms := m.atoms.set k a }
+  | .qname i a, m => { m with questions := m.questions.modify i fun q => q.set 0 a }
+
 def metaSet : List (A × A) → A → A → List (A × A)
   | [], k, v => [(k, v)]
   | (k', v') :: rest, k, v => if k' = k then (k', v) :: rest else (k', v') :: metaSet rest k v
@@ -146,15 +178,23 @@ inductive Edit where
   | respReplace (r : Option Msg)                  -- f.response = …               (assignment)
   | ws (e : WsEdit)                               -- edits of f.websocket, if any (in place)
   | wsReplace (w : Option Ws)
+  | msgs (e : TMsgEdit)                           -- edits of f.messages (TCP/UDP)  (in place)
+  | msgsReplace (l : List TMsg)                   -- f.messages = […]
+  | dreq (e : DnsEdit)                            -- edits of the DNS request       (in place)
+  | dreqReplace (m : DnsMsg)
+  | dresp (e : DnsEdit)                           -- edits of the DNS response, if any
+  | drespReplace (m : Option DnsMsg)
 
 def Edit.comp : Edit → Nat
   | .connField j _ _ => j | .errSet _ => 2 | .errMsg _ => 2 | .flagSet _ => 3 | .atomSet j _ => j
   | .metaSet _ _ => 6 | .metaDel _ => 6 | .metaReplace _ => 6
   | .req _ => 9 | .reqReplace _ => 9 | .resp _ => 10 | .respReplace _ => 10 | .ws _ => 11 | .wsReplace _ => 11
+  | .msgs _ => 9 | .msgsReplace _ => 9 | .dreq _ => 9 | .dreqReplace _ => 9 | .dresp _ => 10 | .drespReplace _ => 10
 
 /-- assignment of a new object (true) or mutation of the existing component object (false) -/
 def Edit.rebinds : Edit → Bool
-  | .errSet _ | .flagSet _ | .atomSet _ _ | .metaReplace _ | .reqReplace _ | .respReplace _ | .wsReplace _ => true
+  | .errSet _ | .flagSet _ | .atomSet _ _ | .metaReplace _ | .reqReplace _ | .respReplace _ | .wsReplace _
+  | .msgsReplace _ | .dreqReplace _ | .drespReplace _ => true
   | _ => false
 
 def Edit.apply : Edit → Comp → Comp
@@ -172,6 +212,12 @@ def Edit.apply : Edit → Comp → Comp
   | .respReplace r, .resp _ => .resp r
   | .ws e, .ws (some w) => .ws (some (e.apply w))
   | .wsReplace w, .ws _ => .ws w
+  | .msgs e, .tmsgs l => .tmsgs (e.apply l)
+  | .msgsReplace l, .tmsgs _ => .tmsgs l
+  | .dreq e, .dns (some m) => .dns (some (e.apply m))
+  | .dreqReplace m, .dns _ => .dns (some m)
+  | .dresp e, .dns (some m) => .dns (some (e.apply m))
+  | .drespReplace m, .dns _ => .dns m
   | _, c => c
 
 -- ------------------------------------------------------------------------------------------ typed histories
